@@ -14,7 +14,9 @@ RULE = ("scenario = start state {empty, p1->X, p1,p2->X, X unreferenced, p1->mis
         "start state (+3 independent control pairs) - every such pair; plus sampled triples. Each scenario is run "
         "on the REAL code under a cooperative scheduler that owns every shared file-system call and every "
         "condition-variable operation: ALL schedules with <= c preemptions (c=1 quick, 2 thorough; switches at "
-        "blocking points are free) + seeded random walks; triples by PCT(d=3) and random walks. Oracle: (per-call "
+        "blocking points are free) + seeded random walks; triples by PCT(d=3) and random walks; plus random / PCT "
+        "schedules with STATEMENT-level yield points (sys.monitoring LINE events in filehashstore.py, ~900 points "
+        "per two-call run) on 96 (quick) / all (thorough) pair scenarios. Oracle: (per-call "
         "outcome, final directory abstraction) must equal that of some sequential order of the same calls run on "
         "the same code (a store_object rejected 'already in progress' while another store_object for the same pid "
         "is in the scenario is the one extra outcome allowed); no deadlock. distinct_nontrivial = distinct "
@@ -22,8 +24,8 @@ RULE = ("scenario = start state {empty, p1->X, p1,p2->X, X unreferenced, p1->mis
         "thorough adds 2400 free-running histories (3-4 real threads x 2-3 calls, seeded micro-delays at file-system "
         "calls) checked by a Wing-Gong search against the reference model - an independent cross-check of the "
         "yield-point assumption.")
-ASSUMPTIONS = ["yield points = shared file-system calls + condition operations; under the GIL these are the only "
-               "places where threads of this code base communicate (DESIGN.md 3.4/6)",
+ASSUMPTIONS = ["systematic search uses yield points = shared file-system calls + condition operations + sleep(); races "
+               "between two in-memory statements are reached by the statement-level random schedules only",
                "directory-level stat/mkdir are scheduling points only in scenarios where directories can still be missing "
                "(start from an empty store; all metadata scenarios); elsewhere they are skipped because they commute",
                "the sequential specification is the implementation run without preemption"]
@@ -40,12 +42,20 @@ def shards(tier, seed):
     rng.shuffle(pairs)
     out = []
     seeds = split_seeds(seed * 1000 + 77, n * 4)
+    # statement-level yield points (sys.monitoring LINE events inside filehashstore.py): random / PCT schedules that
+    # can preempt between any two statements, for races on in-memory state that file-system-level points cannot split
+    line_scns = list(pairs)
+    random.Random(seed * 1000 + 71).shuffle(line_scns)
     if tier == "quick":
         for c, s in zip(chunk(pairs, n * 2), seeds):
             out.append((c, 1, 6, 0, s, None))
         for c, s in zip(chunk(triples, n), seeds[n * 2:]):
             out.append((c, 0, 10, 10, s, 1))
+        for c, s in zip(chunk(line_scns[:96], n), split_seeds(seed + 71, n)):
+            out.append(("statement-level", c, 8, s))
     else:
+        for c, s in zip(chunk(line_scns, n * 2), split_seeds(seed + 71, n * 2)):
+            out.append(("statement-level", c, 60, s))
         for c, s in zip(chunk(pairs, n * 4), seeds):
             out.append((c, 2, 30, 0, s, None))
         for c, s in zip(chunk(triples, n * 2), split_seeds(seed + 7, n * 2)):
@@ -58,7 +68,7 @@ def shards(tier, seed):
 
 
 def min_required(tier):
-    return {"schedules": 10000, "scenarios": 300, "schedules_with_a_waiting_thread": 500}
+    return {"schedules": 10000, "scenarios": 300, "schedules_with_a_waiting_thread": 500, "statement_level_schedules": 500}
 
 
 def run_shard(*args):
@@ -68,6 +78,9 @@ def run_shard(*args):
         res.counters["thread_histories"] = res.counters.pop("process_histories", 0)
         res.counters["thread_calls_recorded"] = res.counters.pop("process_calls_recorded", 0)
         return res
+    if args[0] == "statement-level":
+        _k, scns, n_line, sub_seed = args
+        return P.run_scenarios(scns, 0, 0, 0, sub_seed, SYMPTOMS, n_line=n_line, skip_dfs=True)
     scns, bound, n_random, pct, sub_seed, budget = args
     return P.run_scenarios(scns, bound, n_random, pct, sub_seed, SYMPTOMS, budget=budget)
 
